@@ -540,7 +540,7 @@ func (fr *Frame) uncontracted(ci ssa.CallInstruction, c *ssa.CallCommon, key str
 	fr.keepPrivate(beforeHavoc, fr.cur)
 	var res []*Term
 	for i, t := range resTypes {
-		r := enc.declare(fmt.Sprintf("r%d_%s", i, ci.(ssa.Value).Name()), w.sortOf(t))
+		r := enc.declare(fmt.Sprintf("r%d_%s", i, ciName(ci)), w.sortOf(t))
 		fr.assumeWF(r, t, fr.cur, 1)
 		res = append(res, r)
 	}
@@ -608,11 +608,11 @@ func (fr *Frame) applyContract(fc *FuncContract, key string, ci ssa.CallInstruct
 			}
 			r := w.applyPureN(env, pf, tvs, i)
 			_ = t
-			res = append(res, enc.define("pure_"+ci.(ssa.Value).Name(), w.sortOf(t), r))
+			res = append(res, enc.define("pure_"+ciName(ci), w.sortOf(t), r))
 		}
 	} else {
 		for i, t := range resTypes {
-			r := enc.declare(fmt.Sprintf("r%d_%s", i, ci.(ssa.Value).Name()), w.sortOf(t))
+			r := enc.declare(fmt.Sprintf("r%d_%s", i, ciName(ci)), w.sortOf(t))
 			res = append(res, r)
 		}
 	}
@@ -1157,4 +1157,12 @@ func (fr *Frame) atCallChecks(ci ssa.CallInstruction, c *ssa.CallCommon) {
 		fr.resolveState = nil
 		fr.enc.oblige(fmt.Sprintf("atcall%d", i+1), fr.where(ci), "before calling "+ac.Kind+": "+ac.Text, ac.Tags, fr.curPC, t)
 	}
+}
+
+// ciName names the results of a call instruction (a deferred call is not a value).
+func ciName(ci ssa.CallInstruction) string {
+	if v, ok := ci.(ssa.Value); ok {
+		return v.Name()
+	}
+	return "deferred"
 }
